@@ -37,6 +37,7 @@ struct McScenario
   bool point_before_unlock = false;
   bool spurious_wakeups = false; // offer spurious cond wake-ups as MC_ENV deviations
   uint64_t max_executions = 0;   // 0 = unlimited (a cap makes the run non-exhaustive)
+  double weight = 1;             // share of the remaining wall-clock budget relative to the other scenarios
 };
 
 // Entry point of a concurrent harness:  parses --tier/--out/--jobs/--deadline/--replay/--only.
@@ -71,6 +72,9 @@ void mc_advance_wall(int64_t delta_ns); // jump the wall clock only
 // Let background threads run until nothing is enabled; if advance_ns>0 first advance virtual
 // time by that amount in deadline order (timers that expire on the way fire in order).
 void mc_quiesce(uint64_t advance_ns = 0);
+// Virtual time that elapsed through timer *deviations* (a timed wait fired while other threads were
+// runnable, i.e. those threads were slow): not attributable to the code under test.
+uint64_t mc_deviation_ns();
 // Current scheduling step (monotonic counter of executed operations): usable as a timestamp.
 uint64_t mc_step();
 // True while inside a scheduled execution.
